@@ -207,6 +207,77 @@ def sweep(ctx: Ctx):
             first.setdefault("inverse_grid", (desc + f": |weight {i}|", abs(float(new.weights[i])), float((ws / np.abs(dv))[order][i])))
         elif np.any(new.weights < 0):
             first.setdefault("weights_nonneg", (desc, float(np.min(new.weights)), ">= 0"))
+    # rules on a half line [0, inf) through the maps defined there, rules on [rmin, inf) through the inverse maps, and rules on a
+    # proper sub-interval of a map's domain: nodes, |Jacobian| weights, and the new domain = ordered image containing every node
+    def image_of(tf_, lo_, hi_):
+        with np.errstate(all="ignore"):
+            ends = [float(tf_.transform(np.array([v]))[0]) if np.isfinite(v) else None for v in (lo_, hi_)]
+        return ends
+
+    half = []  # (key class, description, transform, rule grid, expected image (lo, hi))
+    gl6, ui7, se7 = OG.GaussLaguerre(6), OG.UniformInteger(7), OG.SingleExp(7, 0.3)
+    fixed = [("LinearInfiniteRTransform", dict(rmin=0.125, rmax=5.0, b=3.0)), ("LinearInfiniteRTransform", dict(rmin=0.125, rmax=5.0)),
+             ("ExpRTransform", dict(rmin=0.125, rmax=5.0, b=3.0)), ("ExpRTransform", dict(rmin=0.125, rmax=5.0)),
+             ("PowerRTransform", dict(rmin=0.125, rmax=5.0, b=3.0)), ("PowerRTransform", dict(rmin=0.125, rmax=5.0)),
+             ("HyperbolicRTransform", dict(a=1.0, b=0.01)), ("IdentityRTransform", {})]
+    for k in range(0 if ctx.quick else 12):
+        c = ctx.rng.choice(["LinearInfiniteRTransform", "ExpRTransform", "PowerRTransform", "HyperbolicRTransform"])
+        p0, _, _ = c03.sample_params(c, ctx.rng)
+        if c == "HyperbolicRTransform":
+            p0["b"] = min(p0["b"], 0.02)
+        fixed.append((c, p0))
+    for cname, p in fixed:
+        for rname, rule in (("GaussLaguerre(6)", gl6), ("UniformInteger(7)", ui7), ("SingleExp(7, 0.3)", se7)):
+            lo_img = 0.0 if cname in ("HyperbolicRTransform", "IdentityRTransform") else p["rmin"]
+            half.append((cname, f"{cname}({', '.join(f'{k}={v}' for k, v in p.items())}).transform_1d_grid({rname})", lambda c=cname, q=p: _tf(c, q), rule, (lo_img, np.inf)))
+    FIXED_INV = dict(BeckeRTransform=dict(rmin=0.25, R=1.0), LinearFiniteRTransform=dict(rmin=0.25, rmax=3.0), MultiExpRTransform=dict(rmin=0.25, R=1.0),
+                     KnowlesRTransform=dict(rmin=0.25, R=1.0, k=2), HandyRTransform=dict(rmin=0.25, R=1.0, m=2), HandyModRTransform=dict(rmin=0.25, rmax=30.0, m=2))
+    inv_params = [(c, FIXED_INV[c]) for c in classes] + ([] if ctx.quick else [(c, c03.sample_params(c, ctx.rng)[0]) for c in classes for _ in range(3)])
+    for cname, p0 in inv_params:
+        tf0 = _tf(cname, p0)
+        lo, hi = RT.InverseRTransform(tf0).domain
+        if np.isinf(hi):
+            rule = OneDGrid(lo + gl6.points, gl6.weights, (lo, np.inf))
+            rname = f"OneDGrid({lo} + GaussLaguerre(6) nodes, weights, ({lo}, inf))"
+        else:
+            g5 = OG.GaussLegendre(5)
+            rule = OneDGrid(lo + (hi - lo) * (g5.points + 1) / 2, g5.weights * (hi - lo) / 2, (lo, hi))
+            rname = f"GaussLegendre(5) scaled to ({lo}, {hi})"
+        half.append(("Inverse" + cname, f"InverseRTransform({cname}({', '.join(f'{k}={v}' for k, v in p0.items())})).transform_1d_grid({rname})",
+                     lambda c=cname, q=p0: RT.InverseRTransform(_tf(c, q)), rule, (-1.0, 1.0)))
+        # a proper sub-interval of [-1, 1]
+        a_, b_ = sorted(ctx.rng.sample(range(-56, 57), 2))
+        a_, b_ = a_ / 64.0, b_ / 64.0
+        g5 = OG.GaussLegendre(5)
+        sub = OneDGrid(a_ + (b_ - a_) * (g5.points + 1) / 2, g5.weights * (b_ - a_) / 2, (a_, b_))
+        half.append((cname + "-sub", f"{cname}({', '.join(f'{k}={v}' for k, v in p0.items())}).transform_1d_grid(GaussLegendre(5) scaled to ({a_}, {b_}))",
+                     lambda c=cname, q=p0: _tf(c, q), sub, None))
+    for kcls, desc, mk, rule, img in half:
+        try:
+            tf = mk()
+            new = transformed(tf, rule)
+        except Exception as e:  # noqa: BLE001
+            first.setdefault(f"other_domains:{kcls}", (desc, type(e).__name__ + ": " + str(e)[:70], "a grid"))
+            continue
+        n += 1
+        x, w = rule.points, rule.weights
+        with np.errstate(all="ignore"):
+            tx, dv = tf.transform(x.astype(float)), tf.deriv(x.astype(float))
+        if img is None:
+            with np.errstate(all="ignore"):
+                img = tuple(sorted(float(v) for v in tf.transform(np.array(rule.domain, dtype=float))))
+        if not np.allclose(new.points, tx, rtol=1e-13, atol=0):
+            first.setdefault(f"other_domains:{kcls}", (desc + ": nodes", float(np.max(np.abs(new.points - tx))), 0.0))
+        elif not np.allclose(np.abs(new.weights), np.abs(dv) * w, rtol=1e-12, atol=0):
+            first.setdefault(f"other_domains:{kcls}", (desc + ": |weights|", float(np.max(np.abs(np.abs(new.weights) - np.abs(dv) * w))), 0.0))
+        dom = tuple(float(v) for v in new.domain) if new.domain is not None else None
+        tol = 1e-7
+        ok = (dom is not None and not any(np.isnan(dom)) and dom[0] <= dom[1]
+              and np.min(new.points) >= dom[0] - tol and np.max(new.points) <= dom[1] + tol
+              and all((a == b) or abs(a - b) <= 1e-9 * max(1.0, abs(b)) for a, b in zip(dom, img) if np.isfinite(b))
+              and all(a == b for a, b in zip(dom, img) if not np.isfinite(b)))
+        if not ok:
+            first.setdefault(f"domain_of_image:{kcls}", (desc + ": domain", str(dom), str(tuple(float(v) for v in img))))
     # exactness transport: Gauss-Legendre mapped linearly to [a,b]
     for npt in ([2, 5, 8] if ctx.quick else range(2, 16)):
         a, b = Fraction(ctx.rng.randint(-8, 8), 4), None
